@@ -1,7 +1,7 @@
 (* C10 — Pairing is independent of goroutine interleaving (DESIGN.md 5.C10). *)
 Require Import V.Base.Prelude V.Match.Matcher V.Match.MatcherSeq V.Match.MatcherConc V.Match.MatcherConcProofs.
 From Coq Require Import Permutation.
-Require Import V.Match.MatcherSrcTy V.Match.MatcherTie V.gen.MatcherSrc.
+Require Import V.Match.MatcherSrcTy V.Match.MatcherTie V.gen.MatcherSrc V.Match.MatcherGran.
 
 (* One thread per (connection, direction), atoms: counter increment, register (the critical
    section of registerLock), emit.  For every interleaving, a complete run emits exactly the
@@ -19,6 +19,23 @@ Theorem C10_items : forall (c : cfg) (sched : list nat),
                   /\ forall l' q, In (cn, negb d, l') c -> nth_error l' (id - 1) <> Some q)
   /\ Permutation (emitted s) (gitems s).
 Proof. exact conc_items. Qed.
+
+(* The same for the machine in which LoadAndDelete and Store are separate atoms and
+   registerLock is taken before the LoadAndDelete and released after the Store (or when the pair
+   is returned): what the source does (C10_register_is_critical_section).  Atoms: counter
+   increment, map look-up, map store, emit — the steps the property names. *)
+Theorem C10_items_lock_granular : forall (c : cfg) (sched : list nat),
+  NoDup (map fst c) ->
+  let s := mexec true true (minit c) sched in
+  mfinished s = true ->
+  (forall cn p q, In (cn, p, q) (emitted s) <->
+     exists k reqs resps, In (cn, true, reqs) c /\ In (cn, false, resps) c
+                          /\ nth_error reqs k = Some p /\ nth_error resps k = Some q)
+  /\ (forall cn id d p, mm s (cn, id) = Some (d, p) <->
+        exists l, In (cn, d, l) c /\ 0 < id /\ nth_error l (id - 1) = Some p
+                  /\ forall l' q, In (cn, negb d, l') c -> nth_error l' (id - 1) <> Some q)
+  /\ Permutation (emitted s) (gitems s).
+Proof. exact gran_items. Qed.
 
 (* same items and same matcher contents as any other complete run, in particular the one that
    dissects the directions one after the other *)
